@@ -5,6 +5,7 @@ mod util;
 mod range;
 mod bytes;
 mod vecs;
+mod concat;
 
 #[global_allocator]
 static GLOBAL: alloc::Tracking = alloc::Tracking;
@@ -36,6 +37,7 @@ fn main() {
         "range" => range::run(&out, &tier, seed),
         "bytes" => bytes::run(&out, &tier, seed, &rest),
         "vec" => vecs::run(&out, &tier, seed, &rest),
+        "concat" => concat::run(&out, &tier, seed, &rest),
         _ => { eprintln!("unknown driver {}", driver); std::process::exit(2); }
     }
 }
